@@ -485,6 +485,14 @@ type funcCtx struct {
 	covered map[*ssa.BasicBlock]bool
 	ipdom   map[*ssa.BasicBlock]*ssa.BasicBlock
 	rename  map[string]string // contract name of a local -> its current name (pure renames are followed)
+	// inlining of a loop-free module function that has no contract of its own
+	inlineDepth int
+	collector   *[]inlineRet
+}
+
+type inlineRet struct {
+	st  *State
+	res []Value
 }
 
 func (fc *funcCtx) name(kind, site string) string {
@@ -566,8 +574,9 @@ func (e *Engine) VerifyFunc(key string) {
 			return
 		}
 		if ls.Fingerprint != "" && !strings.HasPrefix(fc.loopLst[n-1].Header, ls.Fingerprint) && !strings.HasPrefix(fc.loopLst[n-1].Header, renameIdents(ls.Fingerprint, fc.rename)) {
-			e.failObligation(fc.name("attach", fmt.Sprintf("loop%d", n)), "attach", shortKey(key), "loop header fingerprint matches", fmt.Sprintf("loop %d header is %q, contract was written for %q", n, fc.loopLst[n-1].Header, ls.Fingerprint))
-			return
+			// the header text is only a drift detector: the invariants are checked against whatever loop
+			// they land on, so a reworded header is not a failure by itself
+			e.note(fmt.Sprintf("%s: loop %d header is %q, contract was written for %q (invariants are checked against the loop as it is)", shortKey(key), n, fc.loopLst[n-1].Header, ls.Fingerprint))
 		}
 	}
 	for _, l := range fc.loopLst {
